@@ -211,8 +211,8 @@ def ts_join(rng):
     mirror = {'>': '<', '>=': '<=', '<': '>', '<=': '>=', '=': '='}
     val = None
     if op == 'between':
-        conds.append(f"{ql}.ts BETWEEN 3 AND 6")
-        val = (3, 6)
+        val = r.choice([(3, 6), (3, 6), (4, 4), (2, 5), (5, 5), (6, 3), (1, 9)])      # (equal bounds; an empty range)
+        conds.append(f"{ql}.ts BETWEEN {val[0]} AND {val[1]}")
     elif op == '>latest':
         conds.append(f'{ql}.ts > LATEST')
     elif op == '=latest':
